@@ -197,6 +197,12 @@ class HexSys:
         kind = ev[0]
         self.stats["ev:" + kind + (":" + ev[2][0] if kind == "batch" else "")] += 1
         expect_restore = False  # True when the event must leave the trie exactly as before
+        if "C01" in P:
+            # observe BEFORE the event on the object that will perform it: anything the object memoises across calls
+            # (a lookup cache, a decoded root, ...) is then live during the event, as it would be for a real caller
+            viols += self._probe(t, m, "C01", where="before_event", forms=("get",), probes=self.keys)
+            if viols:
+                return Step(None, m, viols)
         if kind == "op":
             try:
                 apply_op(t, m, ev[1], ev[2])
@@ -242,8 +248,8 @@ class HexSys:
         if not self.prune and ("C04" in P or "C05" in P):
             viols += self._append_only(t, snap, post, "C04" if "C04" in P else "C05", kind)
         if "C01" in P:
-            # reads must stay inside the reachable closure (guard for the canon of DESIGN 2.2)
-            pass
+            # ... and AFTER the event on the very same object (the state check probes a freshly restored one)
+            viols += self._probe(t, m, "C01", where="after_event_same_object", forms=("get", "contains"), probes=self.keys)
         self.stats["transitions"] += 1
         return Step(post, m, viols)
 
@@ -422,16 +428,19 @@ class HexSys:
             viols.append(V(prop, "read_outside_closure", "an entry not reachable from the current root was read", keys=bad[:4], event=kind))
         return viols
 
-    def _probe(self, t, m, prop, where="state"):
+    def _probe(self, t, m, prop, where="state", forms=("get", "getitem", "exists", "contains"), probes=None):
         viols = []
+        given = probes
         probes = self.probes
         if prop == "C06":
             probes = sorted(m)  # C06: "every stored key stays readable"
         elif prop == "C05":
             probes = self.keys
+        if given is not None:
+            probes = given
         for p in probes:
             want = m.get(p, b"")
-            for form in ("get", "getitem", "exists", "contains"):
+            for form in forms:
                 try:
                     if form == "get":
                         got, exp = t.get(p), want
